@@ -76,6 +76,7 @@ def run(prog: Program, col: Collector, tier: str, refs: Optional[Refs] = None, c
     kernels.r_aligned_or_same_layout(prog, col, refs, cat, "R01.23")
     kernels.r_unit_axis_padding(prog, col, refs, cat, "R01.24")
     kernels.r_index_padding_count(prog, col, refs, cat, "R01.25")
+    kernels.r_axis_params_rebased(prog, col, refs, cat, "R01.29")
     # parametrised ops (SumOp(axis=-1) / SumOp(axis=-2), GetitemOp(offset)) are distinguished by their parameters when they are interned
     col.rule("R01.21", "the interning key of a parametrised op is its parameters, not a hash of them", floor=2)
     from . import c07
